@@ -26,6 +26,7 @@ type EvalCtx struct {
 	reach  string
 	inLoop bool
 	depth  int
+	outer  *State
 }
 
 func (f *Frame) evalCtx(st *State, reach string) *EvalCtx {
@@ -595,7 +596,25 @@ func (ev *EvalCtx) evalCall(e *Expr) (SVal, error) {
 		}
 		n := ev.with(ev.old)
 		n.inLoop = false
+		if ev.frame != nil {
+			// inside old(), parameter names denote their entry values
+			n.vars = make(map[string]SVal, len(ev.vars)+len(ev.frame.params))
+			for k, v := range ev.vars {
+				n.vars[k] = v
+			}
+			for k, v := range ev.frame.params {
+				if _, bound := n.vars[k]; !bound {
+					n.vars[k] = SVal{T: v.T, S: v.S, GT: v.GT}
+				}
+			}
+		}
 		// inside old(), locals still denote... the entry state has no locals except parameters
+		return n.eval(e.Args[0])
+	case "outer":
+		if ev.outer == nil {
+			return SVal{}, fmt.Errorf("outer() used outside a nested loop")
+		}
+		n := ev.with(ev.outer)
 		return n.eval(e.Args[0])
 	case "len":
 		x, err := ev.eval(e.Args[0])
